@@ -85,22 +85,35 @@ def gen_timestamps(rng, files, k, ms=False):
     return out
 
 
-def check_lookup(rec, fs, reg, layout, files, t, filters, names, periods, case, via):
+def check_lookup(rec, fs, reg, layout, files, t, filters, names, periods, case, via, shared=None):
+    # the caller keeps one dictionary per filter setting and passes that same object to every search
+    # of the case (a loop over timestamps); the oracle works on the harness' own copy
+    call_filters = filters
+    if filters is not None and shared is not None:
+        import copy
+        import json
+        call_filters, earlier = shared.setdefault(json.dumps(filters, sort_keys=True),
+                                                  (copy.deepcopy(filters), []))
+        rec.count("closest.shared_filter_dict_calls")
+    else:
+        earlier = []
     N = fm.neighbourhood(reg, layout, t, filters, names, periods)
     covering = [p for p in N if reg[p]["t0"] <= t <= reg[p]["t1"]]
-    sub = dict(case, stamps=[[t.isoformat(), filters, via]])
+    # (a replay repeats the earlier searches that were given the same dictionary)
+    sub = dict(case, stamps=list(earlier) + [[t.isoformat(), filters, via]])
+    earlier.append([t.isoformat(), filters, via])
     rec.ev()
     rec.count("closest.calls" if via == "closest" else "getitem.calls")
     got_path, got_none = None, False
     try:
         if via == "closest":
-            res = fs.find_closest(t, filters=filters)
+            res = fs.find_closest(t, filters=call_filters)
             if res is None:
                 got_none = True
             else:
                 got_path = os.fspath(res)
         else:
-            res = fs[t] if filters is None else fs[t, filters]
+            res = fs[t] if filters is None else fs[t, call_filters]
             if res is None:
                 got_none = True
             else:
@@ -190,11 +203,12 @@ def run_case(rec, case):
         else:
             fs = fm.make_fileset(base, layout, name="F", exclude=excl or None,
                                  handler=FileHandler(reader=reader))
+        shared = {}
         for ts, filters, via in case["stamps"]:
             if filters and not layout.with_sat:
                 continue
             check_lookup(rec, fs, reg, layout, files, dt.datetime.fromisoformat(ts), filters,
-                         set(names), periods, case, via)
+                         set(names), periods, case, via, shared=shared)
     finally:
         shutil.rmtree(base, ignore_errors=True)
 
